@@ -571,7 +571,7 @@ class C15(Prop):
             storm = False
             for _ in range(1500):
                 m.tick(0)
-                if not m._tasks and not len(m):
+                if not common.get_tasks(m) and not len(m):
                     idle += 1
                     if idle >= 3:
                         break
